@@ -291,6 +291,13 @@ func (p *Program) Reachable(g *callgraph.Graph, roots ...*ssa.Function) map[*ssa
 			if c == nil || seen[c] {
 				continue
 			}
+			// A call through a function-typed parameter (GenerateMapEntry's f,
+			// a fetch callback) is attributed to the call site that passed the
+			// function: closures are reachable with the function that creates
+			// them, not with every function that calls "some closure".
+			if e.Site != nil && CallsParameter(e.Site) {
+				continue
+			}
 			// Only follow edges that start in the module: callbacks from
 			// library code back into the module are attributed by the call
 			// graph to the library caller and blur scopes (DESIGN 3.2).
@@ -455,4 +462,21 @@ func (p *Program) methodsFor(t types.Type, formal types.Type) []*ssa.Function {
 		}
 	}
 	return out
+}
+
+// CallsParameter reports whether the call site invokes a function value that
+// is a parameter (or a free variable) of the enclosing function.
+func CallsParameter(site ssa.CallInstruction) bool {
+	cc := site.Common()
+	if cc.IsInvoke() {
+		return false
+	}
+	switch v := cc.Value.(type) {
+	case *ssa.Parameter:
+		return true
+	case *ssa.UnOp:
+		_, isFree := v.X.(*ssa.FreeVar)
+		return isFree
+	}
+	return false
 }
